@@ -76,7 +76,15 @@ class History:
             evalenv.configure_cer_based()
             evalenv.set_cer(evalenv.make_cer(packages={"7P": "[1] U [2]", "8P": "[3] O ([4] U [UB1])", "9P": "[5][901]"}))
             self.cached = [cp.parse_condition_expression_to_tree, ap.parse_ahb_expression_to_single_requirement_indicator_expressions]
-            self.fn = lambda s: asyncio.run(resolve(s, resolve_packages=True, replace_time_conditions=True))
+            def flags(s):
+                # every combination of the two flags is used, as a fixed function of the string (so that replays repeat it)
+                import zlib
+                h = zlib.crc32(("flags" + s).encode("utf-8", "replace"))
+                if "UB" in s and h % 3:
+                    return {"resolve_packages": True, "replace_time_conditions": True}  # time conditions are mostly resolved with the default flag
+                return {"resolve_packages": bool(h & 1), "replace_time_conditions": bool(h & 2)}
+            self.flags = flags
+            self.fn = lambda s: asyncio.run(resolve(s, **flags(s)))
             self.raw = None
         self.clear()
         self.parser = parser
@@ -140,12 +148,19 @@ class History:
         path, node = rng.choice(list(self.subtrees(self.held[other])))
         return {"existing": [other, list(path)]}, node
 
-    def step_edit(self):
+    def step_edit(self, at=None):
         rng = self.rng
         if not self.held:
             return
         root = rng.randrange(len(self.held)) if rng.random() < 0.5 else len(self.held) - 1
-        path, node = rng.choice(list(self.subtrees(self.held[root])))
+        if at is not None:
+            root = at[0]
+            cands = [(p, n) for p, n in self.subtrees(self.held[root]) if list(p) == list(at[1])]
+            if not cands:
+                return
+            path, node = cands[0]
+        else:
+            path, node = rng.choice(list(self.subtrees(self.held[root])))
         kind = rng.choice(["replace", "replace", "remove", "append", "rebind", "setData"])
         n = len(node.children)
         if kind in ("replace", "remove") and n == 0:
@@ -278,7 +293,7 @@ def run(ctx: Ctx) -> None:
             ctx.lean_check_olean(MODULES)
     rng = ctx.rng
     histories = []
-    plans = [("cond", ctx.pick(40, 60), ctx.pick(250, 400)), ("ahb", ctx.pick(25, 40), ctx.pick(200, 300)), ("cond", 8, 150), ("ahb", 5, 120), ("cond-deep", 6, 60), ("resolve", 14, 160)]
+    plans = [("cond", ctx.pick(40, 60), ctx.pick(250, 400)), ("ahb", ctx.pick(25, 40), ctx.pick(200, 300)), ("cond", 8, 150), ("ahb", 5, 120), ("cond-deep", 6, 60), ("resolve", 24, 260)]
     if not ctx.quick:
         plans += [("cond", 1500, 3500), ("ahb", 1200, 2600)] + [("cond", 30, 300)] * 6 + [("ahb", 20, 250)] * 6
     for parser, n_strings, n_ops in plans:
@@ -307,6 +322,17 @@ def run(ctx: Ctx) -> None:
         h = History(ctx, parser, strings)
         h.deep = deep
         seen = []
+        if parser == "resolve":
+            # systematic prelude: every sub-tree of every returned tree of the first strings is edited once, then all of them are resolved again
+            for s0 in strings[:6]:
+                if h.step_parse(s0) is None or not h.held:
+                    continue
+                root = len(h.held) - 1
+                for path, _ in list(h.subtrees(h.held[root]))[:14]:
+                    h.step_edit(at=(root, path))
+                for s1 in strings[:6]:
+                    h.step_parse(s1)
+                    ctx.case((parser, len(histories), "prelude", s0, s1))
         for k in range(n_ops):
             if rng.random() < 0.45 and h.held:
                 h.step_edit()
@@ -325,7 +351,8 @@ def run(ctx: Ctx) -> None:
             small = shrink(ctx, parser, ops, strings, s)
             ctx.violation(f"{parser} parser: the tree returned for {s!r} depends on the history (cache hit, miss or eviction, or what callers did with trees returned earlier)",
                           {"parser": parser, "history": small, "string": s, "returned": got, "pure_parse": h.pure[s], "full_history_length": at,
-                           "passed_as_keyword_argument": sorted({op[1] for op in small if op[0] == "parse" and h.by_keyword(op[1])}), "keyword": h.kwname},
+                           "passed_as_keyword_argument": sorted({op[1] for op in small if op[0] == "parse" and h.by_keyword(op[1])}), "keyword": h.kwname,
+                           "resolver_flags": {op[1]: h.flags(op[1]) for op in small if op[0] == "parse"} if hasattr(h, "flags") else None},
                           key=f"impure:{parser}")
     ctx.sample({"parser": histories[0].parser, "ops": histories[0].ops[:8]})
     if drv and mode in ("deep", "shareChildren"):
